@@ -253,6 +253,21 @@ def rphys(r, maxcols=4, maxslices=3):
                 else:
                     col[n] = rsingle(r, tid)
         cols.append(col)
+    # a foreign name list may repeat a name (same type; the default present in one row, absent in
+    # the other): each column then refers to one of the two rows
+    cand = [j for j, (n, t, d) in enumerate(names) if n not in (b"Name", b"DataType") and not n.startswith(b"unused")]
+    if cand and r.random() < 0.15:
+        j = r.choice(cand)
+        n, t, d = names[j]
+        d2 = None if d is not None else rsingle(r, t)
+        if r.random() < 0.3:
+            d2 = d     # identical rows
+        j2 = r.randrange(j + 1, len(names) + 1)
+        names.insert(j2, (n, t, d2))
+        for col in cols:
+            if n in col:
+                v = col.pop(n)
+                col[(n, r.choice([j, j2]))] = v
     slices = []
     for _ in range(r.randrange(0, maxslices + 1)):
         rows = r.choice(ROWS) if r.random() < 0.5 else r.randrange(0, 30)
